@@ -102,3 +102,15 @@ package store
 //@ func Account.ByHash(self, hash) -> (b, err)
 //@   ensures err == nil && b != nil ==> b.Hash == hash
 //@   modifies nothing
+
+// ---- store.Genesis --------------------------------------------------------------------------------------------------
+//@ model Genesis genesisMomentum int     // the configured genesis momentum (canonical *nom.Momentum object)
+//@ model Momentum momentumAt map[int]int // height -> canonical *nom.Momentum stored at that height (0 = none)
+
+//@ func Genesis.GetGenesisMomentum(self)
+//@   ensures result != nil && int(result) == self.genesisMomentum
+//@   modifies nothing
+
+//@ func Momentum.GetMomentumByHeight(self, height) -> (m, err)
+//@   ensures err == nil ==> int(m) == self.momentumAt[height]
+//@   modifies nothing
